@@ -196,6 +196,8 @@ func (r *Run) fmtInt(x *smt.Term, signed bool, v verbSpec, o fmtOpts) []*smt.Ter
 		if isNeg {
 			sign = []*smt.Term{smt.Const(8, '-')}
 			mag = B.Neg(x)
+		} else if x.Op == smt.OpSExt {
+			mag = B.ZExt(x.A[0], x.W) // non-negative on this path: sign extension adds zeros
 		}
 	}
 	if len(sign) == 0 && v.plus {
